@@ -286,11 +286,8 @@ def leaves_loop(s_):
     return False
 
 
-def check_lookahead(ctx, prog):
-    import C15
-    sub = type(ctx)(ctx.prop, ctx.tier, ctx.seed)
-    C15.check_decode.__globals__['fn1'] = C15.fn1
-    # reuse the Url::decode look-ahead rule of C15 (same function, same obligation)
+def url_decode_lookahead(ctx, prog, RULE):
+    """Url::decode: every q0[i + j] look-ahead stays within [0, length] under its guards (shared by C09 and C15)"""
     f = fn1(prog, 'asl::Url::decode')
     ctx.analysed(f)
     g = q.Guarded(f)
@@ -313,30 +310,35 @@ def check_lookahead(ctx, prog):
             try:
                 by_id, by_text = bounded.atoms_of(prog, f, e['a'][0], allow_assigned=(ix.get('id'),))
             except bounded.Undecidable as u:
-                ctx.undecided('C09.lookahead', f['pq'], role, fwhere(f, e['l']), str(u))
+                ctx.undecided(RULE, f['pq'], role, fwhere(f, e['l']), str(u))
                 continue
             lens = set(pe(w) for w in fn_exprs(f) if w.get('k') == 'call' and (w.get('pq') or '').endswith('::length') and strip(w.get('obj') or {}).get('id') == src)
             if len(lens) != 1:
-                ctx.violation('C09.lookahead', f['pq'], role, fwhere(f, e['l']), 'Url::decode reads q0[i + %d] but never consults the length of its input: a trailing %% reads past the terminator' % j)
+                ctx.violation(RULE, f['pq'], role, fwhere(f, e['l']), 'Url::decode reads q0[i + %d] but never consults the length of its input: a trailing %% reads past the terminator' % j)
                 continue
             lt = list(lens)[0]
             by_text[lt] = None
             wr = bounded.writes_between(g, f, set(by_id), g.of(e), e)
             if wr is not None:
-                ctx.undecided('C09.lookahead', f['pq'], role, fwhere(f, e['l']), 'the index is modified (line %s) between its guard and this read' % wr.get('l'))
+                ctx.undecided(RULE, f['pq'], role, fwhere(f, e['l']), 'the index is modified (line %s) between its guard and this read' % wr.get('l'))
                 continue
             index = e['a'][0]
             st, info = bounded.decide(prog, f, g.of(e), lambda ev: 0 <= ev.ev(index) <= ev.by_text[lt], by_id, by_text, range(0, 9), G=g)
             if st == 'undecided':
-                ctx.undecided('C09.lookahead', f['pq'], role, fwhere(f, e['l']), info)
+                ctx.undecided(RULE, f['pq'], role, fwhere(f, e['l']), info)
             elif st == 'holds' and info:
-                ctx.ok('C09.lookahead', f['pq'], role, fwhere(f, e['l']), 'for every (index, length) pair the guards admit (%d of the grid), the index stays within [0, length]' % info)
+                ctx.ok(RULE, f['pq'], role, fwhere(f, e['l']), 'for every (index, length) pair the guards admit (%d of the grid), the index stays within [0, length]' % info)
             elif st == 'holds':
-                ctx.undecided('C09.lookahead', f['pq'], role, fwhere(f, e['l']), 'no (index, length) pair reaches the read')
+                ctx.undecided(RULE, f['pq'], role, fwhere(f, e['l']), 'no (index, length) pair reaches the read')
             else:
-                ctx.violation('C09.lookahead', f['pq'], role, fwhere(f, e['l']), 'Url::decode reads q0[i + %d] although its guards admit %s: a trailing %% reads past the terminator' % (
+                ctx.violation(RULE, f['pq'], role, fwhere(f, e['l']), 'Url::decode reads q0[i + %d] although its guards admit %s: a trailing %% reads past the terminator' % (
                     j, ', '.join('%s = %s' % kv for kv in sorted(info.items()))))
-    ctx.floor('C09.lookahead decode', n, 2)
+    ctx.floor(RULE + ' decode look-ahead', n, 2)
+    return f
+
+
+def check_lookahead(ctx, prog):
+    f = url_decode_lookahead(ctx, prog, 'C09.lookahead')
     # decoded characters are appended only when non-zero (a NUL would hide the rest from the C-string based '..' check)
     g = q.Guarded(f)
     apps = [e for e in fn_exprs(f) if e.get('k') == 'call' and e.get('pq') == 'asl::String::operator<<' and e.get('a') and
